@@ -186,9 +186,15 @@ func c04EndToEnd(c CaseC04) *hx.Failure {
 		}
 	}
 	// every presence combination: PCR only, OPCR only, both; next to the other optional fields
+	// (in a field of 40 bytes, and in one that the requested fields fill exactly or with one byte to spare)
 	for combo := 1; combo <= 3; combo++ {
-		for others := 0; others < 4; others++ {
-			m := &ref.Packet{Sync: 0x47, PID: 0x31, AFC: 3, AF: &ref.AF{Len: 40, RA: others&1 != 0}, Payload: bytes.Repeat([]byte{0x55}, 143)}
+		for othersAndRoom := 0; othersAndRoom < 12; othersAndRoom++ {
+			others, room := othersAndRoom%4, othersAndRoom/4
+			afLen := 40
+			if room > 0 {
+				afLen = 1 + (combo&1)*6 + (combo>>1&1)*6 + (others&1)*1 + (others>>1&1)*4 + room - 1
+			}
+			m := &ref.Packet{Sync: 0x47, PID: 0x31, AFC: 3, AF: &ref.AF{Len: afLen, RA: others&1 != 0}, Payload: bytes.Repeat([]byte{0x55}, 183-afLen)}
 			p := packet.Packet(m.MustBytes())
 			af, _ := p.AdaptationField()
 			if others&1 != 0 {
@@ -215,7 +221,7 @@ func c04EndToEnd(c CaseC04) *hx.Failure {
 					return hx.Failf("e2e-af", "SetPCR: %v", err)
 				}
 			}
-			what := fmt.Sprintf("PCR present %v, OPCR present %v, splice %v, private data %v", combo&1 != 0, combo&2 != 0, others&1 != 0, others&2 != 0)
+			what := fmt.Sprintf("PCR present %v, OPCR present %v, splice %v, private data %v, adaptation_field_length %d", combo&1 != 0, combo&2 != 0, others&1 != 0, others&2 != 0, afLen)
 			if combo&1 != 0 {
 				if got, err := af.PCR(); err != nil || got != v {
 					return hx.Failf("e2e-pcr", "PCR() after SetPCR(%d) = (%d, %v) [%s]", v, got, err, what)
